@@ -95,9 +95,10 @@ Definition inline_image (image link id punct alt : str) (s : st) : st :=
   if negb (existsb (str_eqb image) (existing s)) then err "image not found" s else
   let s1 := if bad_ext image then err "expected .eps or .pdf" s else s in
   w (R ".PDF_IMAGE """ ++ roff_escape image ++ R """" ++ target id) s1.
-Definition lk_with_label (uri label punct : str) :=
-  w (R ".PDF_WWW_LINK " ++ roff_escape (url_norm uri) ++ R " SUFFIX """ ++ punct ++ R """ """ ++ roff_escape label ++ R """").
-Definition lk_without_label (uri punct : str) := w (R ".PDF_WWW_LINK " ++ roff_escape (url_norm uri) ++ R " SUFFIX """ ++ punct ++ R """").
+Definition lk_with_label (uri label punct : str) : st -> st :=
+  with_url uri (fun u => w (R ".PDF_WWW_LINK " ++ roff_escape u ++ R " SUFFIX """ ++ punct ++ R """ """ ++ roff_escape label ++ R """")).
+Definition lk_without_label (uri punct : str) : st -> st :=
+  with_url uri (fun u => w (R ".PDF_WWW_LINK " ++ roff_escape u ++ R " SUFFIX """ ++ punct ++ R """")).
 Definition paragraph_title (t : str) := w (R ".HEADING 5 PARAHEAD """ ++ t ++ R """" ++ NLs).
 Definition table_of_contents (o : popts) (s : st) : st := s.
 End M.
